@@ -437,8 +437,52 @@ func c08R3(c *Ctx, r *Report) {
 	if b == nil || w == nil {
 		r.Undecided(rule, "database/record MarshalRecord", "anchor function missing")
 	} else {
-		sb, sw := strings.Join(seq(b), ","), strings.Join(seq(w), ",")
-		want := "version,dump(format=" + fmt.Sprint(mustConst(c, "formats/dsd", "GenCode")) + "),append-as-block,marshal-data,append,compile"
+		// the layout is the order of the container operations; where the sections come from is checked by provenance
+		// (when the version container is created relative to producing the sections does not matter)
+		layout := func(fn *ssa.Function) string {
+			var out []string
+			for _, s := range seq(fn) {
+				switch s {
+				case "version", "append-as-block", "append", "compile":
+					out = append(out, s)
+				}
+			}
+			return strings.Join(out, ",")
+		}
+		sources := func(fn *ssa.Function) string {
+			var out []string
+			for _, ci := range callsIn(fn, "container.Container.AppendAsBlock") {
+				args := ci.Common().Args
+				ok := false
+				for _, l := range c.Leaves(args[len(args)-1]) {
+					if ex, isEx := l.(*ssa.Extract); isEx {
+						l = ex.Tuple
+					}
+					if call, isCall := l.(*ssa.Call); isCall && calleeName(&call.Call) == "formats/dsd.Dump" {
+						if f, isC := constInt(call.Call.Args[1]); isC && f == mustConst(c, "formats/dsd", "GenCode") {
+							ok = true
+						}
+					}
+				}
+				out = append(out, fmt.Sprintf("block<-gencode-dump:%v", ok))
+			}
+			for _, ci := range callsIn(fn, "container.Container.Append") {
+				args := ci.Common().Args
+				ok := false
+				for _, l := range c.Leaves(args[len(args)-1]) {
+					if ex, isEx := l.(*ssa.Extract); isEx {
+						l = ex.Tuple
+					}
+					if call, isCall := l.(*ssa.Call); isCall && strings.HasSuffix(calleeName(&call.Call), ".Marshal") {
+						ok = true
+					}
+				}
+				out = append(out, fmt.Sprintf("data<-marshal:%v", ok))
+			}
+			return strings.Join(out, ",")
+		}
+		sb, sw := layout(b)+" | "+sources(b), layout(w)+" | "+sources(w)
+		want := "version,append-as-block,append,compile | block<-gencode-dump:true,data<-marshal:true"
 		r.Check(sb == want && sw == want, rule, "database/record MarshalRecord / section sequence", "both writers emit version, length-prefixed GenCode meta, data", fmt.Sprintf("Base: [%s] Wrapper: [%s] expected [%s]", sb, sw, want))
 		// version constant written == accepted (1)
 		for _, fn := range []*ssa.Function{b, w} {
